@@ -486,6 +486,34 @@ fn sequential(args: &Args) {
     }
 }
 
+/// Very long update histories on one replaceable memory (counters wrap at 2^16): after EVERY one
+/// of 2^16 + 2^15 completed replacements the next snapshot shows the map just installed (the maps
+/// alternate between two and three regions, so a single skipped or stale publication is visible).
+fn long_update_history() {
+    let mk = |n: u64| -> Map {
+        let regs: Vec<(GuestAddress, usize)> = (0..n).map(|i| (GuestAddress(0x10_0000 * (i + 1)), 0x1000)).collect();
+        Map::from_ranges(&regs).expect("map")
+    };
+    let (two, three) = (mk(2), mk(3));
+    let at = GuestMemoryAtomic::new(two.clone());
+    let other = at.clone();
+    let total = (1u64 << 16) + (1 << 15) + 7;
+    for k in 1..=total {
+        let next = if k % 2 == 1 { three.clone() } else { two.clone() };
+        let h = if k % 3 == 0 { &other } else { &at };
+        h.lock().unwrap().replace(next);
+        let want = if k % 2 == 1 { 3 } else { 2 };
+        let (a, b) = (at.memory().num_regions(), other.memory().num_regions());
+        if a != want || b != want {
+            v("long-history/snapshot-after-a-completed-replacement-shows-another-map", jobj! {"replacement_number" => k, "regions_seen" => a, "regions_seen_through_clone" => b, "regions_installed" => want});
+            return;
+        }
+    }
+    out::key("long-update-history|2^16+2^15", true);
+    out::eval(total);
+    out::count("long_history_replacements", total as i128);
+}
+
 /// The trivial address spaces (`&M`, `Rc<M>`, `Arc<M>`): a "snapshot" is the map itself.
 fn plain_address_spaces() {
     use vm_memory::GuestAddressSpace;
@@ -517,6 +545,11 @@ pub fn run(args: &Args) {
     if mode != "stress" {
         if let Err(p) = guarded(plain_address_spaces) {
             v(&format!("panic/plain/{}", panic_sig(&p)), J::s(p));
+        }
+        if !cfg!(miri) {
+            if let Err(p) = guarded(long_update_history) {
+                v(&format!("panic/long-history/{}", panic_sig(&p)), J::s(p));
+            }
         }
     }
     if mode == "seq" || mode == "all" {
